@@ -475,3 +475,103 @@ Check ToyDamage.count_changed_null_schema_accepted.
 Check ToyDamage.payload_size_mismatch_refuted.
 Check ToyDamage.cut_contract_needed.
 Check cc_vdec_empty_accepted_null.
+
+(** ** snappy files: count changed, payload replaced (proofs/ContainerCodecDamageSnappy.v); genuineness needs the explicit
+    no-collision hypothesis (the raw decoder returns the original data or fails): shown necessary by payload_collision_refuted *)
+Require Import ContainerCodecDamageSnappy.
+Theorem C17_snappy_file_count_changed :
+  forall (raw_enc : bytes -> bytes) (raw_dec : bytes -> option bytes) (crc32 : bytes -> N),
+  (forall x : bytes, raw_dec (raw_enc x) = Some x) ->
+  (forall x : bytes, crc32 x < 4294967296)%N ->
+  forall (D : Type) (dread : D -> bytes -> option chunkst -> nat -> dres * D) (d0 : D) (policy : nat -> nat -> option nat)
+  (lfuel : nat) (Sc : fschema) (cfg : dcfg) (root : fnode) (approx : N) (sync : bytes) (vectored : bool),
+  schema_wf Sc = true ->
+  fnode_at Sc 0 = Some root ->
+  length sync = 16%nat ->
+  forall (json cname : bytes) (user : list (bytes * bytes)) (sched : list wans) (st0 : wstate) (hs : list hop)
+  (close : wop) (outs : list (wout * N)) (st' : wstate),
+  ContainerHeaderProofs.keys_utf8 user ->
+  (length user <= 998)%nat ->
+  wbuild sync json cname user sched = (WROk, st0) ->
+  Forall (value_ok Sc cfg root) (vals_of hs) ->
+  fits (length (vals_of hs)) ->
+  snappy_sizes_ok raw_enc crc32 Sc root (vals_of hs) ->
+  close = WFinish \/ close = WIntoInner \/ close = WDrop ->
+  wrun (snappy_encode raw_enc crc32) Sc approx sync vectored st0 (map (op_of Sc root) hs ++ [close]) = (outs, st') ->
+  Forall (fun r : wout * N => fst r = WROk) outs ->
+  exists blocks : list (list avalue),
+  w_sink st' = w_sink st0 ++ flat_map (gblk (snappy_encode raw_enc crc32) sync avalue (enc1 Sc root)) blocks /\
+  concat blocks = vals_of hs /\
+  (forall (bs1 : list (list avalue)) (b : list avalue) (bs2 : list (list avalue)),
+  blocks = bs1 ++ b :: bs2 ->
+  let z := snappy_encode raw_enc crc32 (encs Sc root b) in
+  let file :=
+  fun c : nat =>
+  w_sink st0 ++
+  flat_map (gblk (snappy_encode raw_enc crc32) sync avalue (enc1 Sc root)) bs1 ++
+  (Varint.encode_long (Z.of_nat c) ++ Varint.encode_long (Z.of_nat (length z)) ++ z ++ sync) ++
+  flat_map (gblk (snappy_encode raw_enc crc32) sync avalue (enc1 Sc root)) bs2 in
+  (forall (vs1 vs2 : list avalue) (input : rstate),
+  b = vs1 ++ vs2 ->
+  encs Sc root vs2 <> [] ->
+  reads_file (length (file (length vs1))) (file (length vs1)) input ->
+  ccr_file D dread d0 policy raw_dec crc32 dval (cc_vdec Sc cfg root) BSnappy lfuel input =
+  Ok
+  (ContainerHeaderProofs.header_entries json cname user, sync, map (dval_any Sc root) (concat bs1 ++ vs1),
+  CBlock (BEndErr EndLeftover))) /\
+  (forall (extra : nat) (input : rstate),
+  fits (length b + S extra) ->
+  (forall v : dval, fst (cc_vdec Sc cfg root []) <> Ok v) ->
+  reads_file (length (file (length b + S extra)%nat)) (file (length b + S extra)%nat) input ->
+  ccr_file D dread d0 policy raw_dec crc32 dval (cc_vdec Sc cfg root) BSnappy lfuel input =
+  Ok (ContainerHeaderProofs.header_entries json cname user, sync, map (dval_any Sc root) (concat bs1 ++ b), CBlock BValueErr))).
+Proof. exact file_count_changed_snappy. Qed.
+
+Theorem C17_snappy_file_payload_replaced :
+  forall (raw_enc : bytes -> bytes) (raw_dec : bytes -> option bytes) (crc32 : bytes -> N),
+  (forall x : bytes, raw_dec (raw_enc x) = Some x) ->
+  (forall x : bytes, crc32 x < 4294967296)%N ->
+  forall (D : Type) (dread : D -> bytes -> option chunkst -> nat -> dres * D) (d0 : D) (policy : nat -> nat -> option nat)
+  (lfuel : nat) (Sc : fschema) (cfg : dcfg) (root : fnode) (approx : N) (sync : bytes) (vectored : bool),
+  schema_wf Sc = true ->
+  fnode_at Sc 0 = Some root ->
+  length sync = 16%nat ->
+  forall (json cname : bytes) (user : list (bytes * bytes)) (sched : list wans) (st0 : wstate) (hs : list hop)
+  (close : wop) (outs : list (wout * N)) (st' : wstate),
+  ContainerHeaderProofs.keys_utf8 user ->
+  (length user <= 998)%nat ->
+  wbuild sync json cname user sched = (WROk, st0) ->
+  Forall (value_ok Sc cfg root) (vals_of hs) ->
+  fits (length (vals_of hs)) ->
+  snappy_sizes_ok raw_enc crc32 Sc root (vals_of hs) ->
+  close = WFinish \/ close = WIntoInner \/ close = WDrop ->
+  wrun (snappy_encode raw_enc crc32) Sc approx sync vectored st0 (map (op_of Sc root) hs ++ [close]) = (outs, st') ->
+  Forall (fun r : wout * N => fst r = WROk) outs ->
+  exists blocks : list (list avalue),
+  w_sink st' = w_sink st0 ++ flat_map (gblk (snappy_encode raw_enc crc32) sync avalue (enc1 Sc root)) blocks /\
+  concat blocks = vals_of hs /\
+  (forall (bs1 : list (list avalue)) (b : list avalue) (bs2 : list (list avalue)) (raw trailer mark : list N) (input : rstate),
+  blocks = bs1 ++ b :: bs2 ->
+  length mark = 16%nat ->
+  length trailer = 4%nat ->
+  fits (length (raw ++ trailer)) ->
+  (forall d : bytes, raw_dec raw = Some d -> of_be32 trailer = crc32 d) ->
+  (forall d : bytes, raw_dec raw = Some d -> d = encs Sc root b) ->
+  let pay := raw ++ trailer in
+  let file :=
+  w_sink st0 ++
+  flat_map (gblk (snappy_encode raw_enc crc32) sync avalue (enc1 Sc root)) bs1 ++
+  (Varint.encode_long (Z.of_nat (length b)) ++ Varint.encode_long (Z.of_nat (length pay)) ++ pay ++ mark) ++
+  flat_map (gblk (snappy_encode raw_enc crc32) sync avalue (enc1 Sc root)) bs2 in
+  reads_file (length file) file input ->
+  (exists (i : nat) (e : cend),
+  ccr_file D dread d0 policy raw_dec crc32 dval (cc_vdec Sc cfg root) BSnappy lfuel input =
+  Ok (ContainerHeaderProofs.header_entries json cname user, sync, map (dval_any Sc root) (concat bs1 ++ firstn i b), e) /\
+  e <> CEof /\ e <> CFuel) \/
+  mark = sync /\
+  ccr_file D dread d0 policy raw_dec crc32 dval (cc_vdec Sc cfg root) BSnappy lfuel input =
+  Ok (ContainerHeaderProofs.header_entries json cname user, sync, map (dval_any Sc root) (vals_of hs), CEof)).
+Proof. exact file_payload_replaced_snappy_raw. Qed.
+
+
+Check payload_collision_refuted.
